@@ -204,8 +204,9 @@ theorem C09_union (over : Bool) (f : Obj) (F Rt : Tree) (body' : List (String ×
       simp only [encode]
       rw [appendRootMetadata_body over _ _ _ ri hmdk, hmd]
       rfl
-    simp only [appendInto, Tree.at, Tree.name_mk, Tree.info_mk, hname, hroot, List.isEmpty_nil, hf, hrm, bind,
-      Except.bind, pure, Except.pure, if_true, beq_self_eq_true]
+    simp only [appendInto, appendCore, Tree.at, Tree.name_mk, Tree.info_mk, hname, hroot, List.isEmpty_nil, hf, hrm,
+      bind, Except.bind, pure, Except.pure, if_true, beq_self_eq_true, Bool.not_true, Bool.false_and,
+      Bool.false_eq_true, if_false]
     simp only [appendBranch, appendNode, Tree.kids_mk, heq']
 
 /-- per-name union of metadata entries -/
